@@ -10,10 +10,21 @@
      prepass_line_is_prefix_lemma   line i of the pre-passed list is a prefix of the author's line i (a
                                `// comment` and trailing blanks removed): an index into the pre-passed list is
                                an index into the author's text
-     diag_index_in_range_lemma EVERY SyntaxError of the model carries an index < len(lines): no site is
-                               excluded (`located` is the constant true).  The dummy index 0 of the no-line
+     diag_index_in_range_line_sites_lemma   EVERY SyntaxError of the model but "stmt:python-syntax" carries an
+                               index < len(lines), for every oracle.  The dummy index 0 of the no-line
                                sites is in range too, because such a diagnostic needs at least one line.
-     diag_classified_lemma     every SyntaxError (site, i) of parse_real is of one of four kinds
+     diag_index_in_range_lemma ... and "stmt:python-syntax" too (no site is excluded: `located` is the constant
+                               true) WHEN Python blames a line of the text it was given (errline_inside pp:
+                               offset <= number of line feeds of the statement) and the lines are lines of
+                               source.split("\n") (no line feed inside a line).
+     stmt_index_past_end_refuted_lemma   without that premise it is FALSE, of the model and of the real compiler:
+                               core.py adds `e.lineno - 1` unclamped, and CPython counts a bare carriage return
+                               inside the statement as a line break (finding F14c; witness replayed on /repo)
+     diag_classified_lemma     every SyntaxError (site, i) of parse_real is of one of five kinds
+                                 (s) site = "stmt:python-syntax": a `~` statement starts on some line k, Python's
+                                     parser rejects the assembled statement, and i = k + the offset Python blames
+                                     (stmt_blamed; exact, for every oracle)
+                               or i < len(lines) and
                                  (a) line i exists and `culprit site` holds of it        (located, right line)
                                  (b) site is a block site and the diagnostic was raised while the dedented
                                      body of the @for loop opening on some line `start` was re-parsed: i
@@ -29,9 +40,12 @@
                                kind (a) now: c_content / choice_text_rejected.)
      every_site_is_known_lemma every site name parse_real can produce is in one of the four lists main_sites
                                (26), block_sites (14), content_sites (2), call_sites (8)
-     culprit_all_line_sites_lemma    every site but the "call:*" ones: kind (a), (b) [block sites] or (c) [content]
-     culprit_covered_sites_lemma     covered = main_sites + block_sites: kind (a), or (b) for a block site
-     culprit_main_sites_lemma        the 26 main-loop sites: kind (a), always
+     culprit_stmt_site_lemma         "stmt:python-syntax", under the two premises of diag_index_in_range_lemma: line i
+                               lies inside the statement that starts at a `~` line k <= i < k + consumed
+                               (inside_statement), and k + consumed <= len(lines)
+     culprit_all_line_sites_lemma    every site but the "call:*" ones: kind (a), (s), (b) [block sites] or (c) [content]
+     culprit_covered_sites_lemma     covered = main_sites + block_sites: kind (a), (s), or (b) for a block site
+     culprit_main_sites_lemma        the 26 main-loop sites: kind (a), or (s) for "stmt:python-syntax"
      culprit_block_sites_lemma       the 14 block sites: kind (a) or (b)
      culprit_block_sites_outside_loops_lemma   ... kind (a) when no line of the story opens a loop
      culprit_content_sites_lemma               the 2 content sites: kind (a) or (c)
@@ -52,21 +66,20 @@
      content:braces, content:nesting-depth when raised inside an @if branch or a @for body
                                kind (c): _append_text_lines / parse_choice_line are called there without an index.
      every block site when raised while a loop body is re-parsed: kind (b).
-   Covered with a caveat:
-     stmt:python-syntax        culprit = the line opens a `~` statement; for a statement that spans several lines
-                               the real compiler adds Python's e.lineno - 1 (it names the continuation line
-                               Python blames), which the oracle py_stmt_ok does not expose: the model says i
-                               (Compiler/ParseMain.v header).  That Python rejected the assembled statement is
-                               not restated here.
+   stmt:python-syntax          the real compiler reports `i + (e.lineno - 1 if e.lineno else 0)`: the continuation line
+                               Python blames.  The model says the same through the oracle py_stmt_errline
+                               (Compiler/ParseBase.v); kind (s) restates that Python rejected the assembled statement.
    What ties the model's index to the real compiler's: the correspondence runs of C11/C12 compare only the exception
    class of a diagnostic; harness/diag_index_tie.py compares the index (real "on line N" = model index + 1 for kinds
-   (a), (b); no line in the message for kinds (c), (d)) on generated malformed stories, and every story of section
+   (a), (s), (b); no line in the message for kinds (c), (d)) on generated malformed stories, with the oracle
+   py_stmt_errline filled from the real ast (no compensation any more), and every story of section
    11 (examples and witnesses) was replayed by hand on the real compiler with that result.
    DValue diagnostics (duplicate passages, no passages, @start not found, ...) carry no index in the model. *)
 From Coq Require Import String Ascii List Bool Arith ZArith Lia.
 From Bardic Require Import PyStr Value Compiled Lex ParseBase ParseLine ParseMain ParseBlocks.
 From Bardic Require Import ParseProofs ParseBlocksProofs ParseBlocksInst ParseAllProofs.
 From Bardic Require EngineBase.
+From Bardic Require LexProofs.
 Import ListNotations.
 Local Open Scope string_scope.
 Local Open Scope nat_scope.
@@ -225,6 +238,190 @@ Lemma prepass_line_is_prefix_lemma : forall ls i l,
 Proof. intros ls i l H. eapply scop_prefix; eauto. Qed.
 
 (* ------------------------------------------------------------------------------------------- *)
+(* 1b. the lines of an assembled `~` statement                                                  *)
+(* ------------------------------------------------------------------------------------------- *)
+Definition LF : ascii := ascii_of_nat 10.
+Definition is_lf (c : ascii) : bool := Ascii.eqb c LF.
+Fixpoint count_nl (s : string) : nat :=
+  match s with
+  | EmptyString => 0
+  | String c r => (if is_lf c then 1 else 0) + count_nl r
+  end.
+(* a line of source.split("\n") *)
+Definition no_nl (s : string) : Prop := count_nl s = 0.
+
+Lemma count_nl_app : forall a b, count_nl (a ++ b) = count_nl a + count_nl b.
+Proof. induction a as [|c r IH]; intros b; simpl; [reflexivity|]. rewrite IH. lia. Qed.
+
+Lemma count_nl_lstrip : forall s, count_nl (lstrip s) <= count_nl s.
+Proof. induction s as [|c r IH]; simpl; [lia|]. destruct (is_space c); simpl; lia. Qed.
+
+Lemma count_nl_rstrip : forall s, count_nl (rstrip s) <= count_nl s.
+Proof.
+  induction s as [|c r IH]; simpl; [lia|].
+  destruct (rstrip r) as [|c' r'] eqn:E.
+  - destruct (is_space c); simpl in *; lia.
+  - simpl in *. lia.
+Qed.
+
+Lemma count_nl_strip : forall s, count_nl (strip s) <= count_nl s.
+Proof. intros s. unfold strip. pose proof (count_nl_rstrip (lstrip s)). pose proof (count_nl_lstrip s). lia. Qed.
+
+Lemma count_nl_drop : forall n s, count_nl (drop n s) <= count_nl s.
+Proof.
+  induction n as [|n IH]; intros s; simpl; [lia|]. destruct s as [|c r]; simpl; [lia|].
+  pose proof (IH r). lia.
+Qed.
+
+Lemma count_nl_take : forall n s, count_nl (take n s) <= count_nl s.
+Proof.
+  induction n as [|n IH]; intros s; simpl; [lia|]. destruct s as [|c r]; simpl; [lia|].
+  pose proof (IH r). lia.
+Qed.
+
+Lemma is_slash_not_lf : forall c, is_slash c = true -> is_lf c = false.
+Proof. intros c H. unfold is_slash in H. apply Ascii.eqb_eq in H. subst. reflexivity. Qed.
+Lemma is_bslash_not_lf : forall c, is_bslash c = true -> is_lf c = false.
+Proof. intros c H. unfold is_bslash in H. apply Ascii.eqb_eq in H. subst. reflexivity. Qed.
+Lemma is_equals_not_lf : forall c, is_equals c = true -> is_lf c = false.
+Proof. intros c H. unfold is_equals in H. apply Ascii.eqb_eq in H. subst. reflexivity. Qed.
+
+Lemma count_nl_sic_n : forall n s, String.length s <= n -> count_nl (fst (strip_inline_comment s)) <= count_nl s.
+Proof.
+  induction n as [|n IH]; intros s Hl.
+  - destruct s; simpl in *; [lia|lia].
+  - destruct s as [|a [|b [|c r]]].
+    + simpl. lia.
+    + rewrite LexProofs.sic_1. simpl. lia.
+    + rewrite LexProofs.sic_2. destruct (is_slash a && is_slash b); simpl; lia.
+    + rewrite LexProofs.sic_3.
+      assert (Hr : count_nl (fst (strip_inline_comment r)) <= count_nl r) by (apply IH; simpl in Hl; lia).
+      assert (Hbc : count_nl (fst (strip_inline_comment (String b (String c r)))) <= count_nl (String b (String c r)))
+        by (apply IH; simpl in Hl; simpl; lia).
+      destruct (is_bslash a && is_slash b && is_slash c) eqn:E1.
+      { cbn [fst]. change (count_nl (String "/" (String "/" (fst (strip_inline_comment r))))) with (count_nl (fst (strip_inline_comment r))).
+        simpl. lia. }
+      destruct (is_slash a && is_slash b && is_equals c) eqn:E2.
+      { cbn [fst]. change (count_nl (String "/" (String "/" (String "=" (fst (strip_inline_comment r)))))) with (count_nl (fst (strip_inline_comment r))).
+        simpl. lia. }
+      destruct (is_slash a && is_slash b); cbn [fst]; [simpl; lia|].
+      change (count_nl (String a (fst (strip_inline_comment (String b (String c r))))))
+        with ((if is_lf a then 1 else 0) + count_nl (fst (strip_inline_comment (String b (String c r))))).
+      change (count_nl (String a (String b (String c r))))
+        with ((if is_lf a then 1 else 0) + count_nl (String b (String c r))).
+      lia.
+Qed.
+
+Lemma count_nl_sic : forall s, count_nl (fst (strip_inline_comment s)) <= count_nl s.
+Proof. intros s. apply (count_nl_sic_n (String.length s)). lia. Qed.
+
+(* the code of the `~` line has no line feed when the line has none *)
+Lemma stmt_code_no_nl : forall l, no_nl l -> no_nl (fst (strip_inline_comment (strip (drop 2 l)))).
+Proof.
+  intros l H. unfold no_nl in *.
+  pose proof (count_nl_sic (strip (drop 2 l))). pose proof (count_nl_strip (drop 2 l)).
+  pose proof (count_nl_drop 2 l). lia.
+Qed.
+
+(* join "\n" of lines without line feeds: one line feed between two lines *)
+Lemma count_nl_join : forall l, Forall no_nl l -> l <> [] ->
+  S (count_nl (join (String LF EmptyString) l)) = length l.
+Proof.
+  induction l as [|x r IH]; intros HF Hne; [congruence|].
+  inversion HF as [|x0 r0 Hx Hr]; subst. destruct r as [|y r'].
+  - simpl. rewrite Hx. reflexivity.
+  - change (join (String LF "") (x :: y :: r')) with (x ++ (String LF "" ++ join (String LF "") (y :: r')))%string.
+    rewrite !count_nl_app. rewrite Hx. change (count_nl (String LF "")) with 1.
+    specialize (IH Hr). cbn [length] in *. assert (y :: r' <> []) by discriminate. specialize (IH H). lia.
+Qed.
+
+(* the loop of extract_multiline_expression collects the next n' - n lines, in order *)
+Lemma eme_loop_spec : forall rest stack acc n acc' n',
+  eme_loop rest stack acc n = (acc', n') ->
+  exists m, n' = n + m /\ m <= length rest /\ acc' = rev (firstn m rest) ++ acc.
+Proof.
+  induction rest as [|l r IH]; intros stack acc n acc' n' H; cbn [eme_loop] in H.
+  - inversion H; subst. exists 0. simpl. repeat split; lia.
+  - destruct stack as [|t st].
+    + inversion H; subst. exists 0. simpl. repeat split; lia.
+    + destruct (scan_brackets l (t :: st)) as [|t' st'] eqn:E.
+      * inversion H; subst. exists 1. simpl. repeat split; lia.
+      * apply IH in H. destruct H as (m & -> & Hm & ->). exists (S m). cbn [firstn rev length].
+        repeat split; [lia|lia|]. rewrite <- List.app_assoc. reflexivity.
+Qed.
+
+(* the statement that starts on line k: its extent lies in the file, and -- on lines of source.split("\n") --
+   the assembled text has exactly one line per consumed line *)
+Lemma emx_extent : forall lines k code cc n,
+  k < length lines -> extract_multiline_expression lines k code = (cc, n) ->
+  1 <= n /\ k + n <= length lines.
+Proof.
+  intros lines k code cc n Hk H. unfold extract_multiline_expression in H. cbv zeta in H.
+  destruct (negb _).
+  - inversion H; subst. lia.
+  - destruct (eme_loop _ _ _ _) as [acc m] eqn:E. inversion H; subst.
+    apply eme_loop_spec in E. destruct E as (m' & -> & Hm & _). rewrite skipn_length in Hm. lia.
+Qed.
+
+Lemma Forall_firstn : forall A (P : A -> Prop) n l, Forall P l -> Forall P (firstn n l).
+Proof.
+  intros A P n. induction n as [|n IH]; intros l H; [constructor|].
+  destruct l as [|x r]; [constructor|]. inversion H; subst. simpl. constructor; auto.
+Qed.
+Lemma Forall_skipn : forall A (P : A -> Prop) n l, Forall P l -> Forall P (skipn n l).
+Proof.
+  intros A P n. induction n as [|n IH]; intros l H; [exact H|].
+  destruct l as [|x r]; [constructor|]. inversion H; subst. simpl. auto.
+Qed.
+
+Lemma emx_count_nl : forall lines k code cc n,
+  Forall no_nl lines -> no_nl code -> extract_multiline_expression lines k code = (cc, n) ->
+  S (count_nl cc) = n.
+Proof.
+  intros lines k code cc n HF Hc H. unfold extract_multiline_expression in H. cbv zeta in H.
+  destruct (negb _).
+  - inversion H; subst. rewrite Hc. reflexivity.
+  - destruct (eme_loop _ _ _ _) as [acc m] eqn:E. inversion H; subst.
+    apply eme_loop_spec in E. destruct E as (m' & -> & Hm & ->).
+    rewrite rev_app_distr, rev_involutive. cbn [rev app].
+    change (String (ascii_of_nat 10) "") with (String LF "").
+    rewrite count_nl_join.
+    + cbn [length]. rewrite firstn_length. lia.
+    + constructor; [exact Hc|]. apply Forall_firstn. apply Forall_skipn. exact HF.
+    + discriminate.
+Qed.
+
+Lemma count_nl_prefix : forall a b, startswith a b = true -> count_nl b <= count_nl a.
+Proof.
+  induction a as [|x a IH]; intros b H.
+  - destruct b; simpl in *; [lia|discriminate].
+  - destruct b as [|y b]; [simpl; lia|]. simpl in H. apply andb_prop in H. destruct H as [E H].
+    unfold ascii_eqb in E. apply Ascii.eqb_eq in E. subst. simpl. pose proof (IH _ H). lia.
+Qed.
+
+(* the pre-pass keeps lines free of line feeds *)
+Lemma prepass_no_nl : forall ls, Forall no_nl ls -> Forall no_nl (prepass ls).
+Proof.
+  intros ls H. apply Forall_forall. intros l Hin. apply In_nth_error in Hin. destruct Hin as [i Hi].
+  destruct (prepass_line_is_prefix_lemma _ _ _ Hi) as (l0 & Hl0 & Hp).
+  rewrite Forall_forall in H. specialize (H l0 (nth_error_In _ _ Hl0)).
+  unfold no_nl in *. pose proof (count_nl_prefix _ _ Hp). lia.
+Qed.
+
+(* source.split("\n") yields lines without line feeds *)
+Lemma split_char_aux_no_nl : forall s cur, no_nl cur -> Forall no_nl (split_char_aux s LF cur).
+Proof.
+  induction s as [|a r IH]; intros cur Hc; cbn [split_char_aux].
+  - constructor; [exact Hc|constructor].
+  - destruct (ascii_eqb a LF) eqn:E.
+    + constructor; [exact Hc|]. apply IH. reflexivity.
+    + apply IH. unfold no_nl in *. rewrite count_nl_app. simpl. unfold is_lf. unfold ascii_eqb in E. rewrite E. lia.
+Qed.
+
+Lemma split_lines_no_nl_lemma : forall source, Forall no_nl (split_char source LF).
+Proof. intros. apply split_char_aux_no_nl. reflexivity. Qed.
+
+(* ------------------------------------------------------------------------------------------- *)
 (* 2. the site names, by where they are raised                                                  *)
 (* ------------------------------------------------------------------------------------------- *)
 (* raised by the main loop of core.py itself and by the line-level functions it calls WITH line context *)
@@ -291,9 +488,8 @@ Definition c_hook (s l : string) : bool :=
   String.eqb s "hook:arity" && startswith (strip l) "@hook " && negb (is3 (split_ws (strip l))).
 Definition c_unhook (s l : string) : bool :=
   String.eqb s "unhook:arity" && startswith (strip l) "@unhook " && negb (is3 (split_ws (strip l))).
-(* the line opens a `~` statement (that Python's parser rejects the statement is stmt_culprit_rejected) *)
-Definition c_stmt (s l : string) : bool :=
-  String.eqb s "stmt:python-syntax" && startswith l "~ ".
+(* "stmt:python-syntax" has no per-line culprit: the indexed line is the line Python blames INSIDE a `~` statement
+   that may span several lines -- kind (s), stmt_blamed / inside_statement in section 8 *)
 (* a choice line that validate_choice_syntax rejects with this diagnostic *)
 Definition is_choice_start (l : string) : bool := startswith l "+ " || startswith l "* ".
 Definition c_choice (s l : string) : bool :=
@@ -351,7 +547,7 @@ Definition c_content (s l : string) : bool :=
   csite s && (content_direct s l || choice_text_rejected s l).
 
 Definition culprit_families : list (string -> string -> bool) :=
-  [c_header; c_render; c_input; c_hook; c_unhook; c_stmt; c_choice; c_unparsed; c_block; c_content].
+  [c_header; c_render; c_input; c_hook; c_unhook; c_choice; c_unparsed; c_block; c_content].
 
 Definition culprit (site line : string) : bool := existsb (fun f => f site line) culprit_families.
 
@@ -1127,14 +1323,93 @@ Definition raised_in_block (lines : list string) (s : string) : Prop :=
     ((is_if_line (strip l0) = true /\ extract_conditional_block_real lines i0 = PDiag (DSyntax s 0)) \/
      (is_for_line (strip l0) = true /\ extract_loop_block_real lines i0 = PDiag (DSyntax s 0))).
 
-Definition G (lines : list string) (s : string) (k : nat) : Prop :=
+(* kind (s): a `~` statement starts on line k, Python's parser rejects the assembled statement (cc, n lines
+   consumed) and blames its line `off` (0-based): the index is k + off, as core.py computes it
+   (`error_line = i + (e.lineno - 1 if e.lineno else 0)`, not clamped) *)
+Definition stmt_site : string := "stmt:python-syntax".
+Definition stmt_rejected_at (pp : pyparse) (lines : list string) (k off n : nat) : Prop :=
+  exists l code cm cc,
+    nth_error lines k = Some l /\ startswith l "~ " = true /\
+    strip_inline_comment (strip (drop 2 l)) = (code, cm) /\
+    extract_multiline_expression lines k code = (cc, n) /\
+    py_stmt_ok pp cc = false /\ off = py_stmt_errline pp cc.
+Definition stmt_blamed (pp : pyparse) (lines : list string) (i : nat) : Prop :=
+  exists k off n, stmt_rejected_at pp lines k off n /\ i = k + off.
+
+(* line i lies inside the statement that starts at the `~` line k: k <= i < k + consumed *)
+Definition stmt_consumed (lines : list string) (k : nat) (l : string) : nat :=
+  snd (extract_multiline_expression lines k (fst (strip_inline_comment (strip (drop 2 l))))).
+Definition inside_statement (lines : list string) (i : nat) : Prop :=
+  exists k l, nth_error lines k = Some l /\ startswith l "~ " = true /\
+              k <= i /\ i < k + stmt_consumed lines k l /\ k + stmt_consumed lines k l <= length lines.
+(* the same, decidable (used by the harness and the examples) *)
+Definition stmt_covers (lines : list string) (i k : nat) : bool :=
+  match nth_error lines k with
+  | Some l => startswith l "~ " && (k <=? i) && (i <? k + stmt_consumed lines k l)
+              && (k + stmt_consumed lines k l <=? length lines)
+  | None => false
+  end.
+Definition inside_statement_b (lines : list string) (i : nat) : bool :=
+  existsb (stmt_covers lines i) (seq 0 (S i)).
+
+Lemma inside_statement_b_iff : forall lines i, inside_statement_b lines i = true <-> inside_statement lines i.
+Proof.
+  intros lines i. unfold inside_statement_b, inside_statement. rewrite existsb_exists. split.
+  - intros (k & _ & H). unfold stmt_covers in H. destruct (nth_error lines k) as [l|] eqn:E; [|discriminate].
+    apply andb_prop in H. destruct H as [H H4]. apply andb_prop in H. destruct H as [H H3].
+    apply andb_prop in H. destruct H as [H1 H2].
+    apply Nat.leb_le in H2. apply Nat.ltb_lt in H3. apply Nat.leb_le in H4. exists k, l. repeat split; auto.
+  - intros (k & l & Hn & H1 & H2 & H3 & H4). exists k. split; [apply in_seq; lia|].
+    unfold stmt_covers. rewrite Hn, H1. apply Nat.leb_le in H2. apply Nat.ltb_lt in H3. apply Nat.leb_le in H4.
+    rewrite H2, H3, H4. reflexivity.
+Qed.
+
+(* Python blames a line of the text it was given: the offset is at most the number of line feeds of the statement.
+   (True of CPython for statements without a bare carriage return -- harness/diag_index_tie.py checks it on every
+   rejected statement; false with one: stmt_index_past_end_refuted_lemma.) *)
+Definition errline_inside (pp : pyparse) : Prop :=
+  forall code, py_stmt_ok pp code = false -> py_stmt_errline pp code <= count_nl code.
+
+Lemma stmt_blamed_inside : forall pp lines i,
+  errline_inside pp -> Forall no_nl lines -> stmt_blamed pp lines i -> inside_statement lines i.
+Proof.
+  intros pp lines i Hpp HF (k & off & n & (l & code & cm & cc & Hn & Hs & Hsic & Hemx & Hrej & ->) & ->).
+  assert (Hk : k < length lines) by (apply nth_error_Some; rewrite Hn; discriminate).
+  assert (Hl : no_nl l) by (rewrite Forall_forall in HF; apply HF; eapply nth_error_In; eauto).
+  assert (Hcode : no_nl code).
+  { pose proof (stmt_code_no_nl l Hl) as H. rewrite Hsic in H. exact H. }
+  pose proof (emx_count_nl _ _ _ _ _ HF Hcode Hemx) as Hcnt.
+  destruct (emx_extent _ _ _ _ _ Hk Hemx) as [Hn1 Hext].
+  pose proof (Hpp cc Hrej) as Hoff.
+  exists k, l. unfold stmt_consumed. rewrite Hsic. cbn [fst]. rewrite Hemx. cbn [snd].
+  repeat split; auto; lia.
+Qed.
+
+(* what the candidate patch proposed_fixes/F14c does (`i + min(max(offset, 0), lines_consumed - 1)`): a clamped
+   offset stays inside the statement for EVERY answer of Python's parser, on every line list *)
+Lemma clamped_stmt_index_inside_lemma : forall lines k l off,
+  nth_error lines k = Some l -> startswith l "~ " = true ->
+  inside_statement lines (k + Nat.min off (stmt_consumed lines k l - 1)).
+Proof.
+  intros lines k l off Hn Hs.
+  assert (Hk : k < length lines) by (apply nth_error_Some; rewrite Hn; discriminate).
+  unfold stmt_consumed.
+  destruct (extract_multiline_expression lines k (fst (strip_inline_comment (strip (drop 2 l))))) as [cc n] eqn:E.
+  destruct (emx_extent _ _ _ _ _ Hk E) as [Hn1 Hext].
+  exists k, l. unfold stmt_consumed. rewrite E. cbn [snd]. repeat split; auto; lia.
+Qed.
+
+(* the line kinds (a), (b), (c) *)
+Definition Gl (lines : list string) (s : string) (k : nat) : Prop :=
   k < length lines /\
   (culprit_at lines s k \/
    (bsite s = true /\ raised_in_loop_body lines s k) \/
    (csite s = true /\ k = 0 /\ raised_in_block lines s)).
+Definition G (pp : pyparse) (lines : list string) (s : string) (k : nat) : Prop :=
+  Gl lines s k \/ (s = stmt_site /\ stmt_blamed pp lines k).
 
 Lemma G_culprit : forall lines s k l f,
-  nth_error lines k = Some l -> In f culprit_families -> f s l = true -> G lines s k.
+  nth_error lines k = Some l -> In f culprit_families -> f s l = true -> Gl lines s k.
 Proof.
   intros lines s k l f Hn Hin Hf. split; [eapply nth_error_lt; eauto|]. left.
   exists l. split; auto. eapply culprit_intro; eauto.
@@ -1155,7 +1430,7 @@ Qed.
 
 (* a diagnostic of parse_content_line on (a dedented / unglued form of) line k is located on line k *)
 Lemma content_direct_G : forall lines s k l,
-  nth_error lines k = Some l -> csite s = true -> content_direct s l = true -> G lines s k.
+  nth_error lines k = Some l -> csite s = true -> content_direct s l = true -> Gl lines s k.
 Proof.
   intros lines s k l Hn Hc Hd.
   apply (G_culprit lines _ k l c_content); [exact Hn|fam|].
@@ -1177,13 +1452,13 @@ Variable is_call : string -> bool.
 
 Lemma body_step_G : forall lines i line st cp,
   nth_error lines i = Some line ->
-  diag_sat (G lines) (ParseMain.body_step pp real_extractors lines i line st cp).
+  diag_sat (G pp lines) (ParseMain.body_step pp real_extractors lines i line st cp).
 Proof.
   intros lines i line st cp Hn.
-  assert (Hhere : forall s f, In f culprit_families -> f s line = true -> G lines s i).
-  { intros s f Hin Hf. eapply G_culprit; eauto. }
+  assert (Hhere : forall s f, In f culprit_families -> f s line = true -> G pp lines s i).
+  { intros s f Hin Hf. left. eapply G_culprit; eauto. }
   assert (Hretag : forall A (m : pres A) f, In f culprit_families ->
-            (forall s, site_is m s = true -> f s line = true) -> diag_sat (G lines) (retag i m)).
+            (forall s, site_is m s = true -> f s line = true) -> diag_sat (G pp lines) (retag i m)).
   { intros A m f Hin Hf s k E. apply retag_inv in E. destruct E as [-> Hs]. eapply Hhere; eauto. }
   unfold ParseMain.body_step. cbv zeta.
   destruct (startswith (strip line) "#"); [apply ds_ok|].
@@ -1199,9 +1474,9 @@ Proof.
     pose proof (extract_conditional_block_v_Q true (Some max_block_depth) real_linefns
                   real_content_CS real_choice_CS real_render_nodiag real_input_nodiag
                   lines i line Hn Eif s k E) as [Hk [[Hb [Hc|Hr]]|[Hc ->]]].
-    - split; auto.
-    - split; auto.
-    - split; auto. right; right. repeat split; auto. exists i, line. split; auto. }
+    - left; split; auto.
+    - left; split; auto.
+    - left; split; auto. right; right. repeat split; auto. exists i, line. split; auto. }
   destruct (startswith (strip line) "<<for " || startswith (strip line) "@for ") eqn:Efor.
   { apply ds_bind; [|intros [t consumed] _; apply ds_ok].
     cbn [x_loop real_extractors].
@@ -1209,9 +1484,9 @@ Proof.
     pose proof (extract_loop_block_v_Q true (Some max_block_depth) real_linefns
                   real_content_CS real_choice_CS real_render_nodiag real_input_nodiag
                   lines i line Hn Efor s k E) as [Hk [[Hb [Hc|Hr]]|[Hc ->]]].
-    - split; auto.
-    - split; auto.
-    - split; auto. right; right. repeat split; auto. exists i, line. split; auto. }
+    - left; split; auto.
+    - left; split; auto.
+    - left; split; auto. right; right. repeat split; auto. exists i, line. split; auto. }
   destruct (startswith (strip line) "@render") eqn:Erender.
   { apply ds_bind; [|intros [t|] _; apply ds_ok].
     apply (Hretag _ _ c_render); [fam|]. intros s Hs. unfold c_render. rewrite Erender, Hs. reflexivity. }
@@ -1219,21 +1494,23 @@ Proof.
   { apply ds_bind; [|intros [t|] _; apply ds_ok].
     apply (Hretag _ _ c_input); [fam|]. intros s Hs. unfold c_input. rewrite Einput, Hs. reflexivity. }
   destruct (startswith (strip line) "@hook ") eqn:Ehook.
-  { assert (D : is3 (split_ws (strip line)) = false -> diag_sat (G lines) (@dsyn (pstate * nat) "hook:arity" i)).
+  { assert (D : is3 (split_ws (strip line)) = false -> diag_sat (G pp lines) (@dsyn (pstate * nat) "hook:arity" i)).
     { intros E3. apply ds_dsyn. apply (Hhere _ c_hook); [fam|]. unfold c_hook. rewrite Ehook, E3. reflexivity. }
     destruct (split_ws (strip line)) as [|a [|b [|c [|d r]]]]; try (apply D; reflexivity). apply ds_ok. }
   destruct (startswith (strip line) "@unhook ") eqn:Eunhook.
-  { assert (D : is3 (split_ws (strip line)) = false -> diag_sat (G lines) (@dsyn (pstate * nat) "unhook:arity" i)).
+  { assert (D : is3 (split_ws (strip line)) = false -> diag_sat (G pp lines) (@dsyn (pstate * nat) "unhook:arity" i)).
     { intros E3. apply ds_dsyn. apply (Hhere _ c_unhook); [fam|]. unfold c_unhook. rewrite Eunhook, E3. reflexivity. }
     destruct (split_ws (strip line)) as [|a [|b [|c [|d r]]]]; try (apply D; reflexivity). apply ds_ok. }
   destruct (String.eqb (strip line) "@join"); [apply ds_ok|].
   destruct (startswith (strip line) "->").
   { destruct (arrow_rest _); [destruct (extract_target_and_args _)|]; apply ds_ok. }
   destruct (startswith line "~ ") eqn:Estmt.
-  { destruct (strip_inline_comment _) as [code cm].
-    destruct (extract_multiline_expression lines i code) as [cc n].
-    destruct (py_stmt_ok pp cc); [apply ds_ok|].
-    apply ds_dsyn. apply (Hhere _ c_stmt); [fam|]. unfold c_stmt. rewrite Estmt. reflexivity. }
+  { destruct (strip_inline_comment _) as [code cm] eqn:Esic.
+    destruct (extract_multiline_expression lines i code) as [cc n] eqn:Eemx.
+    destruct (py_stmt_ok pp cc) eqn:Erej; [apply ds_ok|].
+    apply ds_dsyn. right. split; [reflexivity|].
+    exists i, (py_stmt_errline pp cc), n. split; [|reflexivity].
+    exists line, code, cm, cc. repeat split; auto. }
   destruct (startswith line "+ " || startswith line "* ") eqn:Echoice.
   { apply ds_bind.
     { intros s k E. apply validate_choice_syntax_inv in E. destruct E as [-> Hs].
@@ -1251,7 +1528,7 @@ Proof.
       cbn [x_join real_extractors]. unfold extract_join_choice_block_real.
       eapply ds_weaken; [apply extract_join_diag|].
       intros s k (l & b & Hl & Hb & Hs). cbn [lf_content real_linefns] in Hs.
-      eapply content_direct_G; [exact Hl| |apply (content_direct_drop s l b); auto].
+      left. eapply content_direct_G; [exact Hl| |apply (content_direct_drop s l b); auto].
       eapply site_is_CS; [|exact Hs]. apply parse_content_line_CS.
     - apply ds_dsyn. apply (Hhere _ c_unparsed); [fam|]. unfold c_unparsed, is_choice_start.
       rewrite Echoice, (validate_choice_syntax_ok_index _ _ 0 Hval), Hoc. reflexivity. }
@@ -1259,19 +1536,19 @@ Proof.
   destruct (endswith (rstrip line) "<>").
   - apply ds_bind; [|intros; apply ds_ok].
     intros s k E. apply retag_inv in E. destruct E as [-> Hs]. fold (unglued line) in Hs.
-    eapply content_direct_G; [exact Hn| |].
+    left. eapply content_direct_G; [exact Hn| |].
     + eapply site_is_CS; [|exact Hs]. apply parse_content_line_CS.
     + unfold content_direct. rewrite Hs. reflexivity.
   - apply ds_bind; [|intros; apply ds_ok].
     intros s k E. apply retag_inv in E. destruct E as [-> Hs].
-    eapply content_direct_G; [exact Hn| |].
+    left. eapply content_direct_G; [exact Hn| |].
     + eapply site_is_CS; [|exact Hs]. apply parse_content_line_CS.
     + apply (content_direct_drop s line 0); [lia|rewrite drop_0; exact Hs].
 Qed.
 
 Lemma parse_step_G : forall lines i line st,
   nth_error lines i = Some line ->
-  diag_sat (G lines) (parse_step pp real_extractors lines i line st).
+  diag_sat (G pp lines) (parse_step pp real_extractors lines i line st).
 Proof.
   intros lines i line st Hn. unfold parse_step. cbv zeta.
   match goal with |- diag_sat _ (match ?p with inl _ => _ | inr _ => _ end) => destruct p as [st1|r] end;
@@ -1288,18 +1565,18 @@ Proof.
     { unfold header_parts. rewrite E1, E2, E3. reflexivity. }
     apply ds_bind.
     { intros s k E. apply validate_passage_name_inv in E. destruct E as [-> Hs].
-      eapply G_culprit; [exact Hn| |]; [unfold culprit_families; simpl; left; reflexivity|].
+      left. eapply G_culprit; [exact Hn| |]; [unfold culprit_families; simpl; left; reflexivity|].
       unfold c_header. rewrite Ehdr, HP. cbn [fst snd]. rewrite Hs. reflexivity. }
     intros _ _. apply ds_bind; [|intros; apply ds_ok].
     destruct (ParseLine.nonempty ps) eqn:Eps; [|apply ds_ok].
     intros s k E. apply retag_inv in E. destruct E as [-> Hs].
-    eapply G_culprit; [exact Hn| |]; [unfold culprit_families; simpl; left; reflexivity|].
+    left. eapply G_culprit; [exact Hn| |]; [unfold culprit_families; simpl; left; reflexivity|].
     unfold c_header. rewrite Ehdr, HP. cbn [fst snd]. rewrite Eps, Hs. cbn [andb]. apply orb_true_r. }
   destruct (st_current st2); [apply body_step_G; auto|apply ds_ok].
 Qed.
 
 Lemma parse_loop_G : forall fuel lines i st,
-  diag_sat (G lines) (parse_loop pp real_extractors fuel lines (length lines) i st).
+  diag_sat (G pp lines) (parse_loop pp real_extractors fuel lines (length lines) i st).
 Proof.
   induction fuel as [|f IH]; intros lines i st; cbn [parse_loop].
   - destruct (length lines <=? i); [apply ds_ok|apply ds_fuel].
@@ -1310,11 +1587,12 @@ Qed.
 
 (* the whole of parse: kind (d) is added by the post pass *)
 Definition G' (lines : list string) (s : string) (k : nat) : Prop :=
-  k < length lines /\
-  (culprit_at lines s k \/
-   (bsite s = true /\ raised_in_loop_body lines s k) \/
-   (csite s = true /\ k = 0 /\ raised_in_block lines s) \/
-   (callsite s = true /\ k = 0)).
+  (k < length lines /\
+   (culprit_at lines s k \/
+    (bsite s = true /\ raised_in_loop_body lines s k) \/
+    (csite s = true /\ k = 0 /\ raised_in_block lines s) \/
+    (callsite s = true /\ k = 0))) \/
+  (s = stmt_site /\ stmt_blamed pp lines k).
 
 Lemma parse_G' : forall ls, diag_sat (G' (prepass ls)) (parse_real pp is_call ls).
 Proof.
@@ -1323,11 +1601,11 @@ Proof.
   { intros s k E. vm_compute in E. discriminate. }
   rewrite <- Epre. assert (Hpos : 0 < length (prepass ls)) by (rewrite Epre; simpl; lia).
   apply ds_bind.
-  { eapply ds_weaken; [apply parse_loop_G|]. intros s k [Hk H]. split; [exact Hk|].
+  { eapply ds_weaken; [apply parse_loop_G|]. intros s k [[Hk H]|H]; [|right; exact H]. left. split; [exact Hk|].
     destruct H as [H|[H|H]]; [left; exact H|right; left; exact H|right; right; left; exact H]. }
   intros st _. apply ds_bind; [unfold check_duplicate_passages; destruct (existsb _ _); [apply ds_dvalue|apply ds_ok]|].
   intros _ _. apply ds_bind.
-  { eapply ds_weaken; [apply validate_passages_CALL|]. intros s k [Hc ->]. split; [exact Hpos|].
+  { eapply ds_weaken; [apply validate_passages_CALL|]. intros s k [Hc ->]. left. split; [exact Hpos|].
     right; right; right. split; [exact Hc|reflexivity]. }
   intros _ _. apply ds_bind; [apply determine_initial_nosyntax|intros; apply ds_ok].
 Qed.
@@ -1416,7 +1694,7 @@ Proof.
   assert (MSX : forall A (m : pres A), diag_sat MS m -> site_is m s = true -> msite s = true).
   { intros A m Hm Hs. destruct (site_is_sat _ _ _ _ Hm Hs) as [k Hk]. exact Hk. }
   unfold culprit_families in Hin. simpl in Hin.
-  destruct Hin as [<-|[<-|[<-|[<-|[<-|[<-|[<-|[<-|[<-|[<-|[]]]]]]]]]]].
+  destruct Hin as [<-|[<-|[<-|[<-|[<-|[<-|[<-|[<-|[<-|[]]]]]]]]]].
   - unfold c_header in Hf. apply andb_prop in Hf. destruct Hf as [_ Hf]. apply M.
     apply orb_prop in Hf. destruct Hf as [Hf|Hf].
     + eapply MSX; [apply validate_passage_name_MS|exact Hf].
@@ -1429,8 +1707,6 @@ Proof.
     destruct Hf as [Hf _]. apply String.eqb_eq in Hf. subst. reflexivity.
   - unfold c_unhook in Hf. apply andb_prop in Hf. destruct Hf as [Hf _]. apply andb_prop in Hf.
     destruct Hf as [Hf _]. apply String.eqb_eq in Hf. subst. reflexivity.
-  - unfold c_stmt in Hf. apply andb_prop in Hf. destruct Hf as [Hf _]. apply String.eqb_eq in Hf.
-    subst. reflexivity.
   - unfold c_choice in Hf. apply andb_prop in Hf. destruct Hf as [_ Hf]. apply M.
     eapply MSX; [apply validate_choice_syntax_MS|exact Hf].
   - unfold c_unparsed in Hf. repeat (apply andb_prop in Hf; destruct Hf as [Hf _]).
@@ -1439,45 +1715,149 @@ Proof.
   - unfold c_content in Hf. apply andb_prop in Hf. destruct Hf as [Hf _]. rewrite Hf. apply orb_true_r.
 Qed.
 
+(* no line-level function raises "stmt:python-syntax": `culprit` never holds for that site, so a diagnostic of that
+   site is of kind (s) and of no other *)
+Definition NS (s : string) (k : nat) : Prop := String.eqb s stmt_site = false.
+
+Lemma validate_choice_syntax_NS : forall l i, diag_sat NS (validate_choice_syntax l i).
+Proof. intros l i. unfold validate_choice_syntax, index_char. cbv zeta. ds_walk. Qed.
+Lemma validate_passage_name_NS : forall n i, diag_sat NS (validate_passage_name n i).
+Proof. intros n i. unfold validate_passage_name. ds_walk. Qed.
+Lemma ppp_step_NS : forall st part, diag_sat NS (ppp_step st part).
+Proof. intros [[acc seen] names] part. unfold ppp_step. cbv zeta. ds_walk. Qed.
+Lemma ppp_loop_NS : forall parts st, diag_sat NS (ppp_loop parts st).
+Proof.
+  induction parts as [|p r IH]; intros st; cbn [ppp_loop]; [apply ds_ok|].
+  apply ds_bind; [apply ppp_step_NS|intros; apply IH].
+Qed.
+Lemma parse_passage_params_NS : forall s, diag_sat NS (parse_passage_params s).
+Proof.
+  intros s. unfold parse_passage_params. destruct (negb (ParseLine.nonempty s)); [apply ds_ok|].
+  apply ds_bind; [apply ppp_loop_NS|]. intros [[acc a] b] _. apply ds_ok.
+Qed.
+Lemma parse_render_line_NS : forall ctx l, diag_sat NS (parse_render_line ctx l).
+Proof. intros ctx l. unfold parse_render_line. cbv zeta. ds_walk. Qed.
+Lemma parse_input_attrs_NS : forall ctx l, diag_sat NS (parse_input_attrs ctx l).
+Proof. intros ctx l. unfold parse_input_attrs. cbv zeta. ds_walk. Qed.
+
+Lemma culprit_not_stmt_site : forall l, culprit stmt_site l = false.
+Proof.
+  intros l. destruct (culprit stmt_site l) eqn:H; [exfalso|reflexivity].
+  unfold culprit in H. apply existsb_exists in H. destruct H as (f & Hin & Hf).
+  assert (NSX : forall A (m : pres A), diag_sat NS m -> site_is m stmt_site = true -> False).
+  { intros A m Hm Hs. destruct (site_is_sat _ _ _ _ Hm Hs) as [k Hk]. unfold NS in Hk. discriminate Hk. }
+  unfold culprit_families in Hin. simpl in Hin.
+  destruct Hin as [<-|[<-|[<-|[<-|[<-|[<-|[<-|[<-|[<-|[]]]]]]]]]].
+  - unfold c_header in Hf. apply andb_prop in Hf. destruct Hf as [_ Hf].
+    apply orb_prop in Hf. destruct Hf as [Hf|Hf].
+    + eapply NSX; [apply validate_passage_name_NS|exact Hf].
+    + apply andb_prop in Hf. destruct Hf as [_ Hf]. eapply NSX; [apply parse_passage_params_NS|exact Hf].
+  - unfold c_render in Hf. apply andb_prop in Hf. destruct Hf as [_ Hf].
+    eapply NSX; [apply parse_render_line_NS|exact Hf].
+  - unfold c_input in Hf. apply andb_prop in Hf. destruct Hf as [_ Hf].
+    eapply NSX; [apply parse_input_attrs_NS|exact Hf].
+  - unfold c_hook in Hf. discriminate Hf.
+  - unfold c_unhook in Hf. discriminate Hf.
+  - unfold c_choice in Hf. apply andb_prop in Hf. destruct Hf as [_ Hf].
+    eapply NSX; [apply validate_choice_syntax_NS|exact Hf].
+  - unfold c_unparsed in Hf. discriminate Hf.
+  - apply c_block_bsite in Hf. discriminate Hf.
+  - unfold c_content in Hf. discriminate Hf.
+Qed.
+
 (* ------------------------------------------------------------------------------------------- *)
 (* 10. the theorems                                                                             *)
 (* ------------------------------------------------------------------------------------------- *)
 Lemma diag_classified_lemma : forall pp is_call ls site i,
   parse_real pp is_call ls = PDiag (DSyntax site i) ->
-  i < length ls /\
-  (culprit_at (prepass ls) site i \/
-   (bsite site = true /\ raised_in_loop_body (prepass ls) site i) \/
-   (csite site = true /\ i = 0 /\ raised_in_block (prepass ls) site) \/
-   (callsite site = true /\ i = 0)).
+  (i < length ls /\
+   (culprit_at (prepass ls) site i \/
+    (bsite site = true /\ raised_in_loop_body (prepass ls) site i) \/
+    (csite site = true /\ i = 0 /\ raised_in_block (prepass ls) site) \/
+    (callsite site = true /\ i = 0))) \/
+  (site = stmt_site /\ stmt_blamed pp (prepass ls) i).
 Proof.
-  intros pp is_call ls site i H. destruct (parse_G' pp is_call ls site i H) as [Hk Hc].
+  intros pp is_call ls site i H. destruct (parse_G' pp is_call ls site i H) as [[Hk Hc]|Hs]; [left|right; exact Hs].
   rewrite prepass_length_lemma in Hk. split; auto.
 Qed.
 
+(* every site but "stmt:python-syntax": in range, whatever the oracles answer *)
+Lemma diag_index_in_range_line_sites_lemma : forall pp is_call ls site i,
+  parse_real pp is_call ls = PDiag (DSyntax site i) -> site <> stmt_site -> i < length ls.
+Proof.
+  intros pp is_call ls site i H Hne. destruct (diag_classified_lemma _ _ _ _ _ H) as [[Hk _]|[Hs _]]; [exact Hk|].
+  contradiction.
+Qed.
+
+(* a "stmt:python-syntax" diagnostic is of kind (s), exactly: some `~` statement starts on a line k, Python rejects
+   the assembled statement, and i = k + the offset Python blames (for every oracle) *)
+Lemma stmt_site_blamed_lemma : forall pp is_call ls i,
+  parse_real pp is_call ls = PDiag (DSyntax stmt_site i) -> stmt_blamed pp (prepass ls) i.
+Proof.
+  intros pp is_call ls i H.
+  destruct (diag_classified_lemma _ _ _ _ _ H) as [[Hk [(l & Hn & Hc)|[[Hb _]|[[Hc _]|[Hc _]]]]]|[_ Hs]];
+    try discriminate; [|exact Hs].
+  rewrite culprit_not_stmt_site in Hc. discriminate.
+Qed.
+
+(* ... and line i lies inside that statement, which lies inside the source -- when Python blames a line of the text
+   it was given (errline_inside) and the lines are lines of source.split("\n") (no line feed inside a line) *)
+Lemma culprit_stmt_site_lemma : forall pp is_call ls i,
+  errline_inside pp -> Forall no_nl ls ->
+  parse_real pp is_call ls = PDiag (DSyntax stmt_site i) -> inside_statement (prepass ls) i.
+Proof.
+  intros pp is_call ls i Hpp HF H. apply (stmt_blamed_inside pp); auto.
+  - apply prepass_no_nl; exact HF.
+  - eapply stmt_site_blamed_lemma; eauto.
+Qed.
+
+Lemma inside_statement_in_range : forall lines i, inside_statement lines i -> i < length lines.
+Proof. intros lines i (k & l & _ & _ & _ & H1 & H2). lia. Qed.
+
+(* EVERY SyntaxError carries an index inside the source, under the two premises of culprit_stmt_site_lemma (they are
+   only used for "stmt:python-syntax"); without them: stmt_index_past_end_refuted_lemma *)
 Lemma diag_index_in_range_lemma : forall pp is_call ls site i,
+  errline_inside pp -> Forall no_nl ls ->
   parse_real pp is_call ls = PDiag (DSyntax site i) -> located site = true -> i < length ls.
-Proof. intros pp is_call ls site i H _. exact (proj1 (diag_classified_lemma _ _ _ _ _ H)). Qed.
+Proof.
+  intros pp is_call ls site i Hpp HF H _.
+  destruct (diag_classified_lemma _ _ _ _ _ H) as [[Hk _]|[-> _]]; [exact Hk|].
+  rewrite <- prepass_length_lemma. apply inside_statement_in_range. eapply culprit_stmt_site_lemma; eauto.
+Qed.
 
 Lemma every_site_is_known_lemma : forall pp is_call ls site i,
   parse_real pp is_call ls = PDiag (DSyntax site i) -> known_site site = true.
 Proof.
   intros pp is_call ls site i H. unfold known_site.
-  destruct (diag_classified_lemma _ _ _ _ _ H) as [_ [(l & _ & Hc)|[[Hb _]|[[Hc _]|[Hc _]]]]].
+  destruct (diag_classified_lemma _ _ _ _ _ H) as [[_ [(l & _ & Hc)|[[Hb _]|[[Hc _]|[Hc _]]]]]|[-> _]].
   - rewrite (culprit_known _ _ Hc). reflexivity.
   - rewrite Hb. rewrite orb_true_r. reflexivity.
   - rewrite Hc. rewrite orb_true_r. reflexivity.
   - rewrite Hc. apply orb_true_r.
+  - reflexivity.
 Qed.
 
+(* the 26 main-loop sites: the culprit stands on line i; for "stmt:python-syntax": kind (s) *)
 Lemma culprit_main_sites_lemma : forall pp is_call ls site i,
   parse_real pp is_call ls = PDiag (DSyntax site i) -> msite site = true ->
-  exists l, nth_error (prepass ls) i = Some l /\ culprit site l = true.
+  (exists l, nth_error (prepass ls) i = Some l /\ culprit site l = true) \/
+  (site = stmt_site /\ stmt_blamed pp (prepass ls) i).
 Proof.
   intros pp is_call ls site i H Hm.
-  destruct (diag_classified_lemma _ _ _ _ _ H) as [_ [Hc|[[Hb _]|[[Hc _]|[Hc _]]]]]; [exact Hc| | |].
+  destruct (diag_classified_lemma _ _ _ _ _ H) as [[_ [Hc|[[Hb _]|[[Hc _]|[Hc _]]]]]|Hs];
+    [left; exact Hc| | | |right; exact Hs].
   - rewrite (bsite_not_msite _ Hb) in Hm. discriminate.
   - rewrite (csite_not_msite _ Hc) in Hm. discriminate.
   - rewrite (callsite_not_msite _ Hc) in Hm. discriminate.
+Qed.
+
+(* ... all of them but "stmt:python-syntax": always on line i *)
+Lemma culprit_main_line_sites_lemma : forall pp is_call ls site i,
+  parse_real pp is_call ls = PDiag (DSyntax site i) -> msite site = true -> site <> stmt_site ->
+  exists l, nth_error (prepass ls) i = Some l /\ culprit site l = true.
+Proof.
+  intros pp is_call ls site i H Hm Hne.
+  destruct (culprit_main_sites_lemma _ _ _ _ _ H Hm) as [Hc|[Hs _]]; [exact Hc|contradiction].
 Qed.
 
 Lemma culprit_block_sites_lemma : forall pp is_call ls site i,
@@ -1486,8 +1866,8 @@ Lemma culprit_block_sites_lemma : forall pp is_call ls site i,
   raised_in_loop_body (prepass ls) site i.
 Proof.
   intros pp is_call ls site i H Hb.
-  destruct (diag_classified_lemma _ _ _ _ _ H) as [_ [Hc|[[_ Hr]|[[Hc _]|[Hc _]]]]];
-    [left; exact Hc|right; exact Hr| |].
+  destruct (diag_classified_lemma _ _ _ _ _ H) as [[_ [Hc|[[_ Hr]|[[Hc _]|[Hc _]]]]]|[-> _]];
+    [left; exact Hc|right; exact Hr| | |discriminate Hb].
   - rewrite (bsite_not_csite _ Hb) in Hc. discriminate.
   - rewrite (bsite_not_callsite _ Hb) in Hc. discriminate.
 Qed.
@@ -1521,8 +1901,8 @@ Lemma culprit_content_sites_lemma : forall pp is_call ls site i,
   (i = 0 /\ raised_in_block (prepass ls) site).
 Proof.
   intros pp is_call ls site i H Hc.
-  destruct (diag_classified_lemma _ _ _ _ _ H) as [_ [Hk|[[Hb _]|[[_ Hr]|[Hk _]]]]];
-    [left; exact Hk| |right; exact Hr|].
+  destruct (diag_classified_lemma _ _ _ _ _ H) as [[_ [Hk|[[Hb _]|[[_ Hr]|[Hk _]]]]]|[-> _]];
+    [left; exact Hk| |right; exact Hr| |discriminate Hc].
   - rewrite (bsite_not_csite _ Hb) in Hc. discriminate.
   - rewrite (csite_not_callsite _ Hc) in Hk. discriminate.
 Qed.
@@ -1548,7 +1928,8 @@ Lemma call_sites_carry_no_line_lemma : forall pp is_call ls site i,
   parse_real pp is_call ls = PDiag (DSyntax site i) -> callsite site = true -> i = 0.
 Proof.
   intros pp is_call ls site i H Hc.
-  destruct (diag_classified_lemma _ _ _ _ _ H) as [_ [(l & _ & Hk)|[[Hb _]|[[Hk _]|[_ Hk]]]]]; auto.
+  destruct (diag_classified_lemma _ _ _ _ _ H) as [[_ [(l & _ & Hk)|[[Hb _]|[[Hk _]|[_ Hk]]]]]|[-> _]]; auto;
+    [| | |discriminate Hc].
   - apply culprit_known in Hk. apply orb_prop in Hk. destruct Hk as [Hk|Hk].
     + apply orb_prop in Hk. destruct Hk as [Hk|Hk].
       * rewrite (callsite_not_msite _ Hc) in Hk. discriminate.
@@ -1564,11 +1945,12 @@ Definition covered (s : string) : bool := msite s || bsite s.
 Lemma culprit_covered_sites_lemma : forall pp is_call ls site i,
   parse_real pp is_call ls = PDiag (DSyntax site i) -> covered site = true ->
   (exists l, nth_error (prepass ls) i = Some l /\ culprit site l = true) \/
+  (site = stmt_site /\ stmt_blamed pp (prepass ls) i) \/
   (bsite site = true /\ raised_in_loop_body (prepass ls) site i).
 Proof.
   intros pp is_call ls site i H Hc. unfold covered in Hc. apply orb_prop in Hc. destruct Hc as [Hm|Hb].
-  - left. eapply culprit_main_sites_lemma; eauto.
-  - destruct (culprit_block_sites_lemma _ _ _ _ _ H Hb) as [Hk|Hr]; [left; exact Hk|right; split; assumption].
+  - destruct (culprit_main_sites_lemma _ _ _ _ _ H Hm) as [Hk|Hs]; [left; exact Hk|right; left; exact Hs].
+  - destruct (culprit_block_sites_lemma _ _ _ _ _ H Hb) as [Hk|Hr]; [left; exact Hk|right; right; split; assumption].
 Qed.
 
 (* every site that can have a line (all but the "call:*" sites): located, or one of the two F14b kinds *)
@@ -1577,11 +1959,12 @@ Definition has_line_site (s : string) : bool := msite s || bsite s || csite s.
 Lemma culprit_all_line_sites_lemma : forall pp is_call ls site i,
   parse_real pp is_call ls = PDiag (DSyntax site i) -> has_line_site site = true ->
   (exists l, nth_error (prepass ls) i = Some l /\ culprit site l = true) \/
+  (site = stmt_site /\ stmt_blamed pp (prepass ls) i) \/
   (bsite site = true /\ raised_in_loop_body (prepass ls) site i) \/
   (csite site = true /\ i = 0 /\ raised_in_block (prepass ls) site).
 Proof.
   intros pp is_call ls site i H Hs.
-  destruct (diag_classified_lemma _ _ _ _ _ H) as [_ [Hk|[Hk|[Hk|[Hk _]]]]]; auto.
+  destruct (diag_classified_lemma _ _ _ _ _ H) as [[_ [Hk|[Hk|[Hk|[Hk _]]]]]|Hk]; auto.
   exfalso. unfold has_line_site in Hs. apply orb_prop in Hs. destruct Hs as [Hs|Hs].
   - apply orb_prop in Hs. destruct Hs as [Hs|Hs].
     + rewrite (callsite_not_msite _ Hk) in Hs. discriminate.
@@ -1595,8 +1978,18 @@ Qed.
 (*     compiler: the line in its message is the index below + 1), and the witnesses of kinds     *)
 (*     (b), (c), (d)                                                                            *)
 (* ------------------------------------------------------------------------------------------- *)
-(* Python's parser as an oracle for the examples: a statement containing "!!" is rejected *)
-Definition ex_pp : pyparse := mkPyparse (fun c => negb (str_contains c "!!")) (fun _ => Some (0, [])).
+(* Python's parser as an oracle for the examples: a statement containing "!!" is rejected, and the line blamed is
+   the line of the first "!!" (what CPython does for these statements: replayed) *)
+Definition ex_errline (c : string) : nat :=
+  match str_find c "!!" with Some p => count_nl (take p c) | None => 0 end.
+Definition ex_pp : pyparse :=
+  mkPyparse (fun c => negb (str_contains c "!!")) (fun _ => Some (0, [])) ex_errline.
+(* the premise of culprit_stmt_site_lemma / diag_index_in_range_lemma is satisfiable *)
+Lemma ex_pp_errline_inside : errline_inside ex_pp.
+Proof.
+  intros code _. cbn [py_stmt_errline ex_pp]. unfold ex_errline.
+  destruct (str_find code "!!") as [p|]; [apply count_nl_take|lia].
+Qed.
 Definition ex_parse (ls : list string) : pres story := parse_real ex_pp (fun _ => true) ls.
 (* the diagnostic is (site, i) and `culprit site` holds of line i of the pre-passed text *)
 Definition located_example (ls : list string) (site : string) (i : nat) : bool :=
@@ -1637,8 +2030,29 @@ Proof. vm_compute. reflexivity. Qed.
 Definition L_unhook : list string := [":: Start"; "Hello."; "a"; "b"; "@unhook a b c"; "x"].
 Example ex_unhook : located_example L_unhook "unhook:arity" 4 = true.
 Proof. vm_compute. reflexivity. Qed.
+(* kind (s): the diagnostic is ("stmt:python-syntax", i) and line i lies inside a `~` statement of the pre-passed
+   text.  Replayed on the real compiler: "on line 4", "on line 7", "on line 7", "on line 5" for the four stories below. *)
+Definition stmt_example (ls : list string) (i : nat) : bool :=
+  match ex_parse ls with
+  | PDiag (DSyntax s k) => String.eqb s stmt_site && (k =? i) && inside_statement_b (prepass ls) i
+  | _ => false
+  end.
 Definition L_stmt : list string := [":: Start"; "Hello."; "~ y = 1"; "~ x = !!"; "x"].
-Example ex_stmt : located_example L_stmt "stmt:python-syntax" 3 = true.
+Example ex_stmt : stmt_example L_stmt 3 = true.
+Proof. vm_compute. reflexivity. Qed.
+(* several lines, `//` comments around and on the `~` line; Python blames the third line of the statement *)
+Definition L_stmt_multi : list string :=
+  [":: Start // c"; "Hello. // note"; "~ ok = [  // fine"; "  1, 2]"; "~ xs = [   // opens"; "  1,"; "  2 !! 3,"; "]";
+   "after // c"].
+Example ex_stmt_multi : stmt_example L_stmt_multi 6 = true /\ stmt_covers (prepass L_stmt_multi) 6 4 = true /\
+                        stmt_consumed (prepass L_stmt_multi) 4 "~ xs = [" = 4.
+Proof. vm_compute. repeat split; reflexivity. Qed.
+(* the last line of the statement, and the first *)
+Definition L_stmt_last : list string := [":: Start"; "t"; "~ d = {"; "  'a': 1,"; "  'b': (2,"; "  3)"; "!! }"; "after"].
+Example ex_stmt_last : stmt_example L_stmt_last 6 = true /\ stmt_example L_stmt_last 2 = false.
+Proof. vm_compute. repeat split; reflexivity. Qed.
+Definition L_stmt_first : list string := [":: Start"; "t"; "a"; "b"; "~ f(!! ("; "  1,"; "  2))"; "after"].
+Example ex_stmt_first : stmt_example L_stmt_first 4 = true.
 Proof. vm_compute. reflexivity. Qed.
 Definition L_ch_arrow : list string := [":: Start"; "Hello."; "+ [Go] Start"].
 Example ex_ch_arrow : located_example L_ch_arrow "choice:missing-arrow" 2 = true.
@@ -1747,6 +2161,27 @@ Proof.
   vm_compute. repeat split; reflexivity.
 Qed.
 
+(* kind (s) without the premise errline_inside (finding F14c): core.py adds Python's `e.lineno - 1` to the index of
+   the `~` line without clamping it to the statement, and CPython counts a bare carriage return inside the statement
+   as a line break.  The one-line statement  ~ a = 1<CR>x9 b c  on line 2 of a 4-line source: ast.parse says
+   lineno 10 ("unexpected indent"), the real compiler says "on line 11" and shows no source line at all; the model,
+   with the oracle answering as CPython does for that statement, carries index 10 >= 4. *)
+Definition CRs (n : nat) : string := concat_all (repeat (String (ascii_of_nat 13) EmptyString) n).
+Definition cr_stmt : string := ("a = 1" ++ CRs 9 ++ " b c")%string.
+Definition cr_pp : pyparse :=
+  mkPyparse (fun c => negb (String.eqb c cr_stmt)) (fun _ => Some (0, []))
+            (fun c => if String.eqb c cr_stmt then 9 else 0).
+Definition L_stmt_cr : list string := [":: Start"; ("~ " ++ cr_stmt)%string; "hello"; ""].
+Lemma stmt_index_past_end_refuted_lemma :
+  exists pp is_call ls i,
+    Forall no_nl ls /\ parse_real pp is_call ls = PDiag (DSyntax stmt_site i) /\
+    length ls <= i /\ ~ inside_statement (prepass ls) i.
+Proof.
+  exists cr_pp, (fun _ => true), L_stmt_cr, 10.
+  split; [repeat constructor|]. split; [vm_compute; reflexivity|]. split; [vm_compute; lia|].
+  intros Hin. apply inside_statement_in_range in Hin. vm_compute in Hin. lia.
+Qed.
+
 (* kind (d) happens (known finding F14b, no line): the unknown target stands on line 3; dummy index 0 *)
 Definition L_call_unknown : list string := [":: Start"; "Hello."; "+ [Go] -> Nowhere"].
 Lemma call_target_has_no_line_refuted_lemma :
@@ -1781,6 +2216,12 @@ Example ex_depth_choice : located_example L_depth_choice "content:nesting-depth"
 Proof. vm_compute. reflexivity. Qed.
 
 Print Assumptions diag_index_in_range_lemma.
+Print Assumptions diag_index_in_range_line_sites_lemma.
+Print Assumptions stmt_site_blamed_lemma.
+Print Assumptions culprit_stmt_site_lemma.
+Print Assumptions stmt_index_past_end_refuted_lemma.
+Print Assumptions clamped_stmt_index_inside_lemma.
+Print Assumptions split_lines_no_nl_lemma.
 Print Assumptions diag_classified_lemma.
 Print Assumptions culprit_covered_sites_lemma.
 Print Assumptions culprit_all_line_sites_lemma.
